@@ -93,8 +93,10 @@ def run(ctx):
                 c = rng.choice(["S", "B", "NS", "NB"])
                 if len(f["chunks"][k]) <= lim:
                     c = c[-1]            # one batch would already finish the chunk
-                choice.append(c)
-                ops += ["M"] + (["N", c[1]] if c[0] == "N" else [c])
+                fr = "F" if rng.chance(1, 3) else ""                       # free_compressed_memory between the calls
+                fr2 = "f" if (c[0] == "N" and rng.chance(1, 4)) else ""
+                choice.append(c + fr + fr2)
+                ops += ["M"] + (["F"] if fr else []) + (["N"] + (["F"] if fr2 else []) + [c[1]] if c[0] == "N" else [c])
             ops.append("M")
             skip_lines.append("dops %s %d W%s %s" % (f["dt"], lim, raw, " ".join(ops)))
             skip_info.append((f, choice))
@@ -121,10 +123,16 @@ def run(ctx):
         j = 2
         for k, c in enumerate(choice):
             j += 1                                   # M
+            if "F" in c:
+                j += 1                               # free_compressed_memory after the metadata
+            c = c.replace("F", "")
             got = []
             if c[0] == "N":
                 b, _ = toks[j]; j += 1
                 got += G.parse_hexlist(b[5:]) if b.startswith("nums ") else []
+                if "f" in c:
+                    j += 1                           # free_compressed_memory after the first batch
+            c = c.replace("f", "")
             b, _ = toks[j]; j += 1
             if c[-1] == "B":
                 got += G.parse_hexlist(b[len("ok vals="):]) if b.startswith("ok vals=") else [None]
